@@ -29,10 +29,13 @@
      3. C10_text_bin_agree_partial: hence the text tape path on flatten (to_text d), the text stream path
         on tokens (to_text d), the binary tape path, the on-demand path and the stream reader (any capacity
         that fits, any fault-free schedule) on enc_doc (to_bin e d) all return the same value.
+     4. colours: C10_link_rgb_typed_agree (a colour captured as (String, Vec<uN>): text tape path = the three
+        binary paths, all channel values, errors included) and C10_link_rgb_any_refuted (an `any` target
+        sees different structures).
    PARTIAL / NOT PROVED:
-     * rgb colours are part of the documents but shared only where they are ignored (unknown field):
-       TextDeSpec says UNFIT on headers, and the text tape path and the binary paths DISAGREE on a
-       captured colour (C10_link_rgb_* below); theorem 3 excludes them (norgb_fields);
+     * rgb colours are part of the logical documents but [shared] only where they are ignored (unknown
+       field): TextDeSpec says UNFIT on headers, so theorem 3 excludes them (norgb_fields); item 4 is for
+       the one-field document `color = rgb {..}`, not for colours at arbitrary positions of a document;
      * [fits] of the text specification is a hypothesis of theorem 3 (shared implies it, not proved:
        it needs that Date::parse never returns an error CLASS, only None);
      * keys are strings (no I32 keys), the operator is `=`, no Property<T> (text only), no token-attribute
@@ -43,7 +46,7 @@
 From JV Require Import Bytes Tables Utf8 Scalar Date TextTok BinPrim BufWin BinLexer BinReader SerdeShape
   TextDeCommon BinDeCommon TextDeSpec TextDeTape TextDeStream BinDeOndemand BinDeReader BinDeTape LogicDoc.
 From JV Require TextDoc BinDoc.
-From JV.proofs Require Import C10LinkProofs C10SpecProofs C10ComposeProofs.
+From JV.proofs Require Import C10LinkProofs C10SpecProofs C10ComposeProofs C10RgbProofs.
 Open Scope N_scope.
 
 (* text_visit decode pf cfg sh raw  = tvisit_prim F sh (scalar_prim decode pf true (thint_of sh) raw)
@@ -184,6 +187,48 @@ Theorem C10_text_bin_agree_partial : forall decode pf cfg sh d e cap sched,
   BinDeReader.deser_reader cfg cap sched sh b = v.
 Proof. exact text_bin_agree. Qed.
 Print Assumptions C10_text_bin_agree_partial.
+
+(* ------------------------------------------------------------------ 4. colours
+   `color = rgb { r g b [a] }` (text tape: Header + array, read through the two-element view of dom.rs)
+   against the binary rgb block (ColorSequence): for the typed target (String, Vec<uN>) -- how a colour is
+   captured -- the text tape path and the three binary paths return the same value, ERRORS INCLUDED (a
+   channel out of range of uN is refused at the same position), for all channel values, with or without
+   alpha, every N, every resolver / strategy / float parameters; the string decoders are the identity (the
+   two names are ASCII).  [rgb_value bits c] = Ok {color: ("rgb", [r, g, b(, a)])} or Err EC_DE.
+   The text STREAM path does not deliver headers at all (C02_known_H_stream_header). *)
+Theorem C10_link_rgb_typed_agree : forall res strat f32 f64 F pf bits c cap sched,
+  rgb_ok c -> no_fail sched = true ->
+  BinLexer.fits cap (BinDoc.enc_doc (fst (to_bin rgb_enc (rgb_doc c))) (snd (to_bin rgb_enc (rgb_doc c)))) = true ->
+  let cfg := rgb_cfg res strat f32 f64 F in
+  let b := BinDoc.enc_doc (fst (to_bin rgb_enc (rgb_doc c))) (snd (to_bin rgb_enc (rgb_doc c))) in
+  TextDeTape.deser_tape id_dec pf F (rgb_shape bits) (TextDoc.flatten (to_text (rgb_doc c))) = rgb_value bits c /\
+  BinDeTape.deser_tape cfg (rgb_shape bits) b = rgb_value bits c /\
+  BinDeOndemand.deser_ondemand cfg (rgb_shape bits) b = rgb_value bits c /\
+  BinDeReader.deser_reader cfg cap sched (rgb_shape bits) b = rgb_value bits c.
+Proof. exact rgb_typed_agree. Qed.
+Print Assumptions C10_link_rgb_typed_agree.
+
+Example C10_link_rgb_nonvacuous :
+  rgb_ok (mkrgb 110 27 300 (Some 0)) /\
+  rgb_value 8 (mkrgb 110 27 255 (Some 0)) = Ok (DStruct [ (b_color, DSeq [DStr RGB_NAME; DSeq [DU 110; DU 27; DU 255; DU 0]]) ]) /\
+  rgb_value 8 (mkrgb 110 27 300 (Some 0)) = Err EC_DE /\
+  TextDoc.flatten (to_text (rgb_doc (mkrgb 1 2 3 None))) =
+    [TUnquoted b_color; THeader RGB_NAME; TArray 6 false; TUnquoted [49]; TUnquoted [50]; TUnquoted [51]; TEnd 2].
+Proof. split; [repeat constructor|]. repeat split; reflexivity. Qed.
+
+(* a dynamically typed (`any`) target: the text tape path skips the header and delivers the channel list
+   (as strings), the binary paths deliver the tagged pair ("rgb", [1, 2, 3]) -- a difference in STRUCTURE
+   on top of the by-design string / number difference of `any` on scalars.  `any` targets are outside
+   [shared]; props/C10.py replays the witness on the implementation. *)
+Theorem C10_link_rgb_any_refuted :
+  let c := mkrgb 1 2 3 None in
+  let b := BinDoc.enc_doc (fst (to_bin rgb_enc (rgb_doc c))) (snd (to_bin rgb_enc (rgb_doc c))) in
+  TextDeTape.deser_tape id_dec (fun _ => Err 1) (c_fops cfg_id) rgb_any_shape (TextDoc.flatten (to_text (rgb_doc c)))
+    = Ok (DStruct [ (b_color, DSeq [DStr [49]; DStr [50]; DStr [51]]) ]) /\
+  BinDeTape.deser_tape cfg_id rgb_any_shape b = Ok (DStruct [ (b_color, DSeq [DStr RGB_NAME; DSeq [DU 1; DU 2; DU 3]]) ]) /\
+  BinDeOndemand.deser_ondemand cfg_id rgb_any_shape b = BinDeTape.deser_tape cfg_id rgb_any_shape b /\
+  BinDeReader.deser_reader cfg_id 64 [] rgb_any_shape b = BinDeTape.deser_tape cfg_id rgb_any_shape b.
+Proof. exact rgb_any_refuted. Qed.
 
 (* ------------------------------------------------------------------ non-vacuity
    abc=7 k={ a=yes "n"=-5 n=300 } l={ 1 2 4000000000 } abc=9 d=1444.11.11 u={ z={ "x y" } } s="x y" t={ { z=q } { } }
